@@ -25,6 +25,7 @@ OUTCOMES: Dict[str, Dict[str, Any]] = {
     "sync_return": {"flavour": "sync"},
     "sync_raise": {"flavour": "sync", "outcome": "raise"},
     "ack_raises": {"ack": "sync", "_ack_raises": True},
+    "timeout_slow_unwind": {"outcome": "never", "timeout": 0.2, "unwind": "gated"},
 }
 
 META = {
@@ -33,10 +34,11 @@ META = {
     "rule": (
         "(a) over-admission: n = A+2 valid gated messages, all orderings of deliveries/completions/timers, "
         "level 1 adds two events in one loop iteration (completion and arrival coincide); invariant at every "
-        "event: #messages in processing (callback begun, not ended) <= A, and with A=1 processing order = "
+        "event: #messages in processing (callback begun, not ended) <= A and #task functions executing (started, not "
+        "finished incl. their cancellation clean-up) <= A, and with A=1 processing order = "
         "delivery order. (b) leak: every history of length <= L over the outcome alphabet (return, raise, "
-        "timeout, no-result, malformed, unknown, backend failure, failing pre_execute/post_execute/post_save/"
-        "on_error hook, sync return/raise, raising ack), bodies gated so the history is processed in every "
+        "timeout, timeout with a slow cancellation clean-up, no-result, malformed, unknown, backend failure, failing "
+        "pre_execute/post_execute/post_save/on_error hook, sync return/raise, raising ack), bodies gated so the history is processed in every "
         "order/overlap the limit allows, followed by a saturation probe of A+1 never-finishing messages; in "
         "every quiescent state where the history is finished and only timers are enabled exactly A probe "
         "bodies must be running. distinct_nontrivial = distinct terminal/saturated per-message logs."
@@ -115,6 +117,10 @@ def scenarios(tier: str) -> List[Dict[str, Any]]:
         for p in (0, 1):
             out.append({"A": a, "P": p, "N": None, "stream": "infinite", "stop": False, "level": 0,
                         "msgs": [{} for _ in range(a + 2)]})
+    # a timed-out task that is slow to finish its cancellation clean-up still occupies its slot
+    for a in (1, 2):
+        out.append({"A": a, "P": 1, "N": None, "stream": "infinite", "stop": False, "level": 0,
+                    "msgs": [dict(OUTCOMES["timeout_slow_unwind"]) for _ in range(a)] + [{} for _ in range(2)]})
     l1 = (1, 2) if tier == "quick" else (1, 2, 3)
     for a in l1:
         out.append({"A": a, "P": 0, "N": None, "stream": "infinite", "stop": False, "level": 1,
